@@ -300,4 +300,116 @@ theorem anyKidsL_filter (p : Expr → Bool) (q : Expr → Bool) :
       · simp [List.filter, hq, anyKidsL, h.1.1, h.1.2, anyKidsL_filter p q es h.2]
       · simp [List.filter, hq, anyKidsL_filter p q es h.2]
 
+/-! ### bridge: kind-based freeness ⇒ the checker can only complain about calls -/
+/-- every offender is a call -/
+def OC (l : List Off) : Prop := ∀ o ∈ l, o.kind = "Call"
+
+theorem OC_nil : OC [] := by intro o h; cases h
+theorem OC_append {a b : List Off} : OC (a ++ b) ↔ OC a ∧ OC b := by
+  constructor
+  · intro h; exact ⟨fun o ho => h o (List.mem_append_left _ ho), fun o ho => h o (List.mem_append_right _ ho)⟩
+  · intro ⟨ha, hb⟩ o ho
+    rcases List.mem_append.mp ho with h | h
+    · exact ha o h
+    · exact hb o h
+theorem OC_callIte (c : Bool) (i : Nat) (d : String) : OC (if c then [] else [⟨"Call", i, d⟩]) := by
+  cases c <;> simp [OC]
+
+mutual
+theorem off_only_calls (cfg : Cfg) (sc : List String) (w : Bool) :
+    ∀ (e : Expr) (pos : Pos), anyE (nativeExprKind cfg.eqOn) e = false → OC (offE cfg sc w pos e)
+  | .name .., _, _ => by simp [offE, OC_nil]
+  | .const .., _, _ => by simp [offE, OC_nil]
+  | .noneMarker, _, _ => by simp [offE, OC_nil]
+  | .call i f as ks, pos, h => by
+      simp only [anyE, anyKids, orf] at h
+      have hf : anyE (nativeExprKind cfg.eqOn) f = false := by simp [anyE, h.2.1.1.1, h.2.1.1.2]
+      simp only [offE, OC_append]
+      exact ⟨⟨⟨OC_callIte _ _ _, off_only_calls cfg sc w f _ hf⟩, offs_only_calls cfg sc w as _ h.2.1.2⟩,
+        offs_only_calls cfg sc w ks _ h.2.2⟩
+  | .boolop .., _, h => by simp [anyE, nativeExprKind, nativeLogical, isBoolOp] at h
+  | .ifexp .., _, h => by simp [anyE, nativeExprKind, isIfExp] at h
+  | .unary i op e, pos, h => by
+      simp only [anyE, anyKids, orf] at h
+      have hn : (op == "Not") = false := by
+        have := h.1; simpa [nativeExprKind, nativeLogical, isBoolOp, isNot, isEqCompare, isIfExp] using this
+      have he : anyE (nativeExprKind cfg.eqOn) e = false := by simp [anyE, h.2.1, h.2.2]
+      simp only [offE, hn, OC_append]
+      exact ⟨by simp [OC_nil], off_only_calls cfg sc w e _ he⟩
+  | .compare i l ops rs, pos, h => by
+      simp only [anyE, anyKids, orf] at h
+      have hc : compareOk cfg ops = true := by
+        have := h.1
+        simp only [nativeExprKind, nativeLogical, isBoolOp, isNot, isEqCompare, isIfExp, Bool.false_or, Bool.or_false] at this
+        simp [compareOk, this]
+      have hl : anyE (nativeExprKind cfg.eqOn) l = false := by simp [anyE, h.2.1.1, h.2.1.2]
+      simp only [offE, hc, if_true, List.nil_append, OC_append]
+      exact ⟨off_only_calls cfg sc w l _ hl, offs_only_calls cfg sc w rs _ h.2.2⟩
+  | .binop i op l r, pos, h => by
+      simp only [anyE, anyKids, orf] at h
+      simp only [offE, OC_append]
+      exact ⟨off_only_calls cfg sc w l _ (by simp [anyE, h.2.1.1, h.2.1.2]),
+        off_only_calls cfg sc w r _ (by simp [anyE, h.2.2.1, h.2.2.2])⟩
+  | .attr i v a c, pos, h => by
+      simp only [anyE, anyKids, orf] at h
+      simp only [offE]; exact off_only_calls cfg sc w v _ (by simp [anyE, h.2.1, h.2.2])
+  | .subscript i v s c, pos, h => by
+      simp only [anyE, anyKids, orf] at h
+      simp only [offE, OC_append]
+      exact ⟨off_only_calls cfg sc w v _ (by simp [anyE, h.2.1.1, h.2.1.2]),
+        off_only_calls cfg sc w s _ (by simp [anyE, h.2.2.1, h.2.2.2])⟩
+  | .keyword i a hh v, pos, h => by
+      simp only [anyE, anyKids, orf] at h
+      simp only [offE]; exact off_only_calls cfg sc w v _ (by simp [anyE, h.2.1, h.2.2])
+  | .lambda i a b, pos, h => by
+      simp only [anyE, anyKids, orf] at h
+      simp only [offE, OC_append]
+      exact ⟨off_only_calls cfg sc w a _ (by simp [anyE, h.2.1.1, h.2.1.2]),
+        off_only_calls cfg sc w b _ (by simp [anyE, h.2.2.1, h.2.2.2])⟩
+  | .seq i k es c, pos, h => by
+      simp only [anyE, anyKids, orf] at h
+      simp only [offE]; exact offs_only_calls cfg sc w es _ h.2
+  | .starred i v c, pos, h => by
+      simp only [anyE, anyKids, orf] at h
+      simp only [offE]; exact off_only_calls cfg sc w v _ (by simp [anyE, h.2.1, h.2.2])
+  | .namedexpr i t v, pos, h => by
+      simp only [anyE, anyKids, orf] at h
+      simp only [offE, OC_append]
+      exact ⟨off_only_calls cfg sc w t _ (by simp [anyE, h.2.1.1, h.2.1.2]),
+        off_only_calls cfg sc w v _ (by simp [anyE, h.2.2.1, h.2.2.2])⟩
+  | .comp i k es gs, pos, h => by
+      simp only [anyE, anyKids, orf] at h
+      simp only [offE, OC_append]
+      exact ⟨offs_only_calls cfg sc w es _ h.2.1, offs_only_calls cfg sc w gs _ h.2.2⟩
+  | .comprehension i t it ifs a, pos, h => by
+      simp only [anyE, anyKids, orf] at h
+      simp only [offE, OC_append]
+      exact ⟨⟨off_only_calls cfg sc w t _ (by simp [anyE, h.2.1.1.1, h.2.1.1.2]),
+        off_only_calls cfg sc w it _ (by simp [anyE, h.2.1.2.1, h.2.1.2.2])⟩, offs_only_calls cfg sc w ifs _ h.2.2⟩
+  | .arguments i a b c d e f g, pos, h => by
+      simp only [anyE, anyKids, orf] at h
+      obtain ⟨_, ⟨⟨⟨⟨⟨⟨h1, h2⟩, h3⟩, h4⟩, h5⟩, h6⟩, h7⟩⟩ := h
+      simp only [offE, OC_append]
+      exact ⟨⟨⟨⟨⟨⟨offs_only_calls cfg sc w a _ h1, offs_only_calls cfg sc w b _ h2⟩, offs_only_calls cfg sc w c _ h3⟩,
+        offs_only_calls cfg sc w d _ h4⟩, offs_only_calls cfg sc w e _ h5⟩, offs_only_calls cfg sc w f _ h6⟩,
+        offs_only_calls cfg sc w g _ h7⟩
+  | .arg i n an, pos, h => by
+      simp only [anyE, anyKids, orf] at h
+      simp only [offE]; exact offs_only_calls cfg sc w an _ h.2
+  | .withitem i c v, pos, h => by
+      simp only [anyE, anyKids, orf] at h
+      simp only [offE, OC_append]
+      exact ⟨off_only_calls cfg sc w c _ (by simp [anyE, h.2.1.1, h.2.1.2]), offs_only_calls cfg sc w v _ h.2.2⟩
+  | .other i k ats ks, pos, h => by
+      simp only [anyE, anyKids, orf] at h
+      simp only [offE]; exact offs_only_calls cfg sc w ks _ h.2
+theorem offs_only_calls (cfg : Cfg) (sc : List String) (w : Bool) :
+    ∀ (es : List Expr) (ps : List Pos), anyKidsL (nativeExprKind cfg.eqOn) es = false → OC (offEs cfg sc w ps es)
+  | [], _, _ => by simp [offEs, OC_nil]
+  | e :: es, ps, h => by
+      simp only [anyKidsL, orf] at h
+      simp only [offEs, OC_append]
+      exact ⟨off_only_calls cfg sc w e _ (by simp [anyE, h.1.1, h.1.2]), offs_only_calls cfg sc w es _ h.2⟩
+end
+
 end Malt.C04
